@@ -197,6 +197,9 @@ let dispatch (cmd : string) (t : tree) : tree =
             b b0 0 + b b1 1 + b b2 2 + b b3 3 + b b4 4 + b b5 5 + b b6 6 + b b7 7 in
       let ok = (match Codec.parse_tuple txt with Some l' -> l' = l | None -> false) in
       L [w_list (fun c -> w_int (code c)) txt; w_bool ok]
+  | "fault_rebase", [sizes; errs] ->
+      let (groups, _) = Fault.rebase (r_list r_nat sizes) Datatypes.O (r_list r_nat errs) in
+      w_list (w_list w_nat) groups
   | "shape_loop", [shapes] -> w_list w_nat (Shape.loop_shape (r_list r_shape shapes))
   | "shape_fmt_input", [l; s; data] -> w_list (w_list w_z) (Shape.fmt_input (r_shape l) (r_shape s) (r_list r_z data))
   | "shape_out", [l; o] -> w_list w_nat (Shape.fmt_output_shape (r_shape l) (r_shape o))
